@@ -576,3 +576,42 @@ Theorem C02_explicit_h_needs_hypothesis :
   gedges (get_rc (fst (h_to_explicit_its hh_implicit))) = [(1%N, 2%N, IE 2 2 0)].
 Proof. exact rc_explicit_h_needs_hypothesis. Qed.
 Print Assumptions C02_explicit_h_needs_hypothesis.
+
+(** 33. Theorem 20' for ITSConstruction.construct(G, H, store=True) (every ignore_aromaticity / balance_its value, default
+        attribute defaults): when every atom has the same element on both sides, two atoms are joined in the centre of the
+        pair-labelled ITS iff they are bonded on some side and the order differs between G and H (by >= 1 under ignore_aromaticity),
+        or both are hydrogens — element pair ("H", "H").  From 20', 12 and 27(e). *)
+Theorem C02_centre_vs_sides_store_true : forall ia bal (G H : mgraph), wf G -> wf H ->
+  let S := its_construct_S (CO ia bal dflt_nattr) G H in
+  (forall n a, In (n, a) (gnodes S) -> fst (s_el a) = snd (s_el a)) ->
+  forall u v,
+    (exists e, adj (get_rc_S K_default false false (emb_S S)) u v = Some e) <->
+    (adj G u v <> None \/ adj H u v <> None) /\
+    ((if ia then 2 <= Z.abs (order_in G u v - order_in H u v) else order_in G u v <> order_in H u v) \/
+     (is_h_g ish_S (emb_S S) u = true /\ is_h_g ish_S (emb_S S) v = true)).
+Proof. exact centre_vs_sides_store_true. Qed.
+Print Assumptions C02_centre_vs_sides_store_true.
+
+(** 34. extract_k(its, n_knn) for every option value on graphs of any label shape ([extract_k_S_z]); n_knn = -1 goes through the
+        SKELETON of the graph ([skel]: same atom ids and bonds, placeholder labels — longest_radius_extension reads nothing else),
+        so theorems 19, 21, 22 about [lre] apply to [lre (skel g)]. *)
+Theorem C02_extract_k_S_nonneg : forall (g : sits) k, 0 <= k -> extract_k_S_z g k = extract_k_S g (Z.to_nat k).
+Proof. exact extract_k_S_z_nonneg. Qed.
+Print Assumptions C02_extract_k_S_nonneg.
+
+Theorem C02_extract_k_S_minus1 : forall g : sits, wf g ->
+  let rcn := node_ids (get_rc_S K_default false false g) in
+  let r := length (lre (skel g) rcn) in
+  extract_k_S_z g (-1) = ball_sub g rcn r /\
+  (forall n, In n (node_ids (extract_k_S_z g (-1))) <-> dist_le_g g rcn r n) /\
+  (lre (skel g) rcn = [] \/
+   exists n ext, In n rcn /\ lre (skel g) rcn = n :: ext /\ zchain (skel g) n ext /\ NoDup (n :: ext)).
+Proof. exact extract_k_S_z_minus1. Qed.
+Print Assumptions C02_extract_k_S_minus1.
+
+Theorem C02_skel : forall (A : Type) (g : lgraph A xedge) u v,
+  node_ids (skel g) = node_ids g /\
+  adj (skel g) u v = option_map (@fst iedge (option bool)) (adj g u v) /\
+  std0 (skel g) u v = match adj g u v with Some x => e_std (fst x) =? 0 | None => false end.
+Proof. exact (fun A g u v => conj (node_ids_skel g) (conj (adj_skel g u v) (std0_skel g u v))). Qed.
+Print Assumptions C02_skel.
